@@ -1,5 +1,6 @@
 import CM.Ops.Core
 import CM.Ops.Recognize
+import CM.Ops.Check
 namespace CM.Ops
 
 def echoOp : Op
@@ -12,6 +13,6 @@ def treeOp : Op
     | none => bad
   | _ => bad
 
-def allOps : List (String × Op) := [("echo", echoOp), ("tree", treeOp)] ++ recognizeOps
+def allOps : List (String × Op) := [("echo", echoOp), ("tree", treeOp)] ++ recognizeOps ++ checkOps
 
 end CM.Ops
